@@ -360,7 +360,11 @@ pub fn run(mut cx: Ctx) -> ! {
             g.named(t, via_map, &[]);
             // renames rotate through the menu so that every rename string meets every position
             let r1 = RENAMES[1 + ti % (RENAMES.len() - 1)];
-            let r2 = RENAMES[1 + (ti / 3) % (RENAMES.len() - 1)];
+            let mut r2 = RENAMES[1 + (ti / 3) % (RENAMES.len() - 1)];
+            if r2 == r1 {
+                // two fields renamed to the same key are outside the documented mapping
+                r2 = RENAMES[1 + (ti / 3 + 1) % (RENAMES.len() - 1)];
+            }
             if ti % 2 == 0 || t.len() == 1 {
                 g.named(t, via_map, &[r1, None, r2]);
             }
